@@ -45,6 +45,11 @@ X86 = [
     ("pxor {0}, {1}", ["s", "sd"], ["x", "x"], [], [], True),
     ("vcvtsi2sdq {0}, {1}, {2}", ["s", "s", "d"], ["q", "x", "x"], [], [], False),
 ]
+# instructions whose operands are all implicit: (text, families read, families written)
+X86_IMPLICIT = [
+    ("cltq", ["gpr:a"], ["gpr:a"]),       # sign-extend eax into rax
+    ("cqto", ["gpr:a"], ["gpr:d"]),       # sign-extend rax into rdx:rax
+]
 
 A64 = [
     ("mov {0}, {1}", ["d", "s"], ["x", "x"], [], [], False),
@@ -94,13 +99,20 @@ def render_reg(isa, cls, fam):
 
 def pools(isa, rnd, ngp=3, nvec=2):
     if isa == "x86":
-        return rnd.sample(["gpr:" + k for k in X86_NAMES], ngp), rnd.sample(["vec:%d" % i for i in (0, 1, 2, 7, 15)], nvec)
+        # rax / rdx are always in the pool: they carry the implicit operands of cltq / cqto / cltd
+        rest = [k for k in X86_NAMES if k not in ("a", "d")]
+        return (["gpr:a", "gpr:d"] + rnd.sample(["gpr:" + k for k in rest], max(0, ngp - 1)),
+                rnd.sample(["vec:%d" % i for i in (0, 1, 2, 7, 15)], nvec))
     return (rnd.sample(["gp:%d" % i for i in (0, 1, 2, 3, 9, 17, 28)], ngp),
             rnd.sample(["vec:%d" % i for i in (0, 1, 2, 7, 31)], nvec))
 
 
 def gen(isa, rnd, gp, vec):
     """One vocabulary instruction over the given family pools -> abstract instruction dict."""
+    if isa == "x86" and rnd.random() < 0.08:
+        text, rd, wr = rnd.choice(X86_IMPLICIT)
+        return {"text": text, "R": sorted(rd), "W": sorted(wr), "WB": [], "FR": [], "FW": [], "lat": 0, "latwo": 0,
+                "lds": False, "ST": [], "LD": [], "CH": [], "shape": text, "flags_known": True, "db_flags_incomplete": False}
     tmpl, roles, classes, fr, fw, zero = rnd.choice(X86 if isa == "x86" else A64)
     fams = []
     for c in classes:
